@@ -428,6 +428,9 @@ def meta_scenarios():
     sc['meta:midi_port'] = [Ev('meta', 'midi_port', {'port': sym('port', 255)}, tsym('t1'))]
     sc['meta:set_tempo'] = [Ev('meta', 'set_tempo', {'tempo': sym('tempo', 0xffffff)}, tsym('t1'))]
     sc['meta:end_of_track-only'] = []
+    # sharps are positive, flats negative (a signed byte), minor keys have mode 1
+    for key in ('C', 'F#', 'Bb', 'Ebm'):
+        sc[f'meta:key_signature({key})'] = [Ev('meta', 'key_signature', {'key': key}, tsym('t1'))]
     for rate in (24, 25, 29.97, 30):
         sc[f'meta:smpte_offset({rate})'] = [Ev('meta', 'smpte_offset', {
             'frame_rate': rate, 'hours': sym('hours', 31), 'minutes': sym('minutes', 59), 'seconds': sym('seconds', 59),
